@@ -10,17 +10,23 @@ LEVEL_TEXT = ("Table obligations, complete for the artefact they inspect: G1 sha
               "Fraction evaluation.")
 TRUSTED = ['PLY LRParser runs the LALR table and calls each reduction action once in post-order (assumed contract)',
            'yacc precedence theorem (table entries as checked => parse tree is the precedence/associativity tree)']
-CONTRACTS = ['p_expressions', 'p_expression_paren', 'p_expression_uminus', 'p_expression_logical_operator', 'p_expression_arithmetic_operator']
+CONTRACTS = ['p_expressions', 'p_expression_paren', 'p_expression_uminus', 'p_expression_logical_operator', 'p_expression_arithmetic_operator',
+             # the callees whose contracted value the actions pass on (modular: a change inside them is noticed by their own contract)
+             'evaluate_arithmetic', 'evaluate_logic', 'value_and_type']
 
 
 def extra(report, env):
     from pyvc import grammar, e2e
     res = grammar.run([grammar.g1_shape, grammar.g2_relation, grammar.g3_table])
+    # the reading of a formula is PLY's: its assumed contract includes that the token stream of one evaluation is private to it
+    from props.C03 import ply_call_obligations
+    res = res + [('assumption.' + n, ok, d) for n, ok, d in ply_call_obligations(env['repo'])]
     table_obligations(report, 'C04', res)
     rng = random.Random(env['seed'])
     cases, fails = e2e.check_trees(rng, env['tier'])
     bounded(report, 'C04.trees', 'all arithmetic trees with <= %d operators over small leaves + seeded trees with <= %d operators, '
-            'minimal / full / redundant parentheses, exact Fraction reference' % ((3, 5) if env['tier'] == 'thorough' else (2, 4)), cases, fails)
+            'minimal / full / redundant parentheses, exact Fraction reference (exact equality where no step of the tree rounds: leaves 2^52, 2^50, 2^53-1, 2^-16), '
+            'trees whose leaves are evaluated by handlers on the same parser during the parse' % ((3, 5) if env['tier'] == 'thorough' else (2, 4)), cases, fails)
 
 
 def replay(rp):
